@@ -21,6 +21,9 @@ def jobs(tier):
     # ordering disabled: own statements only; real file read back; concurrent flusher
     add("c06.ub", 2, grace=0, adv=0, a=2, b=1, file=1, flushint_ms=200)
     add("c06.ub", 1 if q else 2, grace=0, adv=0, a=1, b=1, f3=1, flushint_ms=200)
+    # each logger lists the shared sink first and a sink of its own after it: every sink of the logger is written and flushed
+    add("c06.ub", 1 if q else 2, grace=0, adv=0, a=1, b=1, f3=1, layout=1, flushint_ms=200)
+    add("c06.ub", 1 if q else 2, grace=1, adv=1, a=1, b=1, layout=1, flushint_ms=200, sleepadv_ns=2000)
     # the other thread's queue has grown to a second buffer while the read pass ended on the hard limit at the end of the
     # first one; batch processing of the cached events
     add("c05.grow", 1, grace=1, na=6, soft=4, hard=4, tbuf=4, points=0, flush=1, sleepadv_ns=2000)
@@ -47,7 +50,7 @@ def run(ctx):
                 "returns}, F2 (first-time logger) {log..}, optional concurrent flusher, against the backend preemptible before its "
                 "ordering clock read, before every queue read, in the batch loop and in the idle branch; virtual time advanced by "
                 "the operations and by every sleep; grace 0 / 1us, UnboundedBlocking / nearly full BoundedDropping, sink flush interval 0 / 200 ms, recording sink "
-                "with flush marks and a real FileSink read back; distinct = distinct observable outcomes")
+                "with flush marks and a real FileSink read back, loggers sharing one sink and owning another; distinct = distinct observable outcomes")
     ctx.set_deadline(170 if ctx.tier == "quick" else 1800)
     exe = opxlib.build("sc_c06", SRC)
     opxlib.run_jobs(ctx, exe, jobs(ctx.tier), "sc_c06")
